@@ -130,6 +130,8 @@ class Engine(Interp):
         bb = body.blocks[bi]
         ctx = self.ctx
         ctx.steps += 1
+        if ctx.step_limit and ctx.steps > ctx.step_limit:
+            raise CheckerError(f"analysis budget of {ctx.step_limit} abstract block executions exceeded (in {fr.inst.name})")
         self._cur_frame = fr
         stmts = bb["statements"]
         for si in range(start, len(stmts)):
